@@ -14,15 +14,46 @@ UTILS = 'mindsdb_sql/parser/utils.py'
 STORE_FIELDS = {'query_str', 'if_query_str', 'query'}
 
 
-def positions(e, prod, pvar='p'):
+def local_bindings(fn, prod, pvar):
+    """names bound to RHS positions by `a, b, c = p._slice` / `x = p._slice[i]` / `x = p[i]` in a raw_query action"""
+    env = {}
+    for st in fn.body:
+        if isinstance(st, ast.Assign) and len(st.targets) == 1:
+            t, v = st.targets[0], st.value
+            if isinstance(t, (ast.Tuple, ast.List)) and norm(v) == f'{pvar}._slice' and len(t.elts) == len(prod.rhs) and all(isinstance(x, ast.Name) for x in t.elts):
+                for i, x in enumerate(t.elts):
+                    env[x.id] = ('sym', i)
+            elif isinstance(t, ast.Name) and isinstance(v, ast.Subscript) and norm(v.value) == f'{pvar}._slice' and isinstance(v.slice, ast.Constant):
+                env[t.id] = ('sym', v.slice.value)
+            elif isinstance(t, ast.Name) and isinstance(v, ast.Subscript) and isinstance(v.value, ast.Name) and v.value.id == pvar and isinstance(v.slice, ast.Constant):
+                env[t.id] = ('val', v.slice.value)
+            elif isinstance(t, ast.Name) and isinstance(v, ast.Attribute) and isinstance(v.value, ast.Name) and v.value.id == pvar and v.attr in prod.names:
+                env[t.id] = ('val', prod.names[v.attr])
+    return env
+
+
+def positions(e, prod, pvar='p', env=None):
     """Symbolic value of a raw_query action's return expression: the list of RHS positions it concatenates."""
+    env = env or {}
+    if isinstance(e, ast.Name) and e.id in env and env[e.id][0] == 'val':
+        i = env[e.id][1]
+        if prod.rhs[i] == prod.name:
+            return [i]
+        raise AnalysisError(f'raw_query action: `{e.id}` is the value of a token, not a token list')
+    if isinstance(e, ast.Attribute) and e.attr == 'value' and isinstance(e.value, ast.Name) and e.value.id in env and env[e.value.id][0] == 'sym':
+        i = env[e.value.id][1]
+        if prod.rhs[i] == prod.name:
+            return [i]          # the value of the nested raw_query symbol is its token list
+        raise AnalysisError(f'raw_query action: `{norm(e)}` is the text of a token, not a token list')
     if isinstance(e, ast.BinOp) and isinstance(e.op, ast.Add):
-        return positions(e.left, prod, pvar) + positions(e.right, prod, pvar)
+        return positions(e.left, prod, pvar, env) + positions(e.right, prod, pvar, env)
     if isinstance(e, ast.List):
         out = []
         for x in e.elts:
             if isinstance(x, ast.Subscript) and norm(x.value) == f'{pvar}._slice' and isinstance(x.slice, ast.Constant):
                 out.append(x.slice.value)
+            elif isinstance(x, ast.Name) and x.id in env and env[x.id][0] == 'sym' and prod.rhs[env[x.id][1]] != prod.name:
+                out.append(env[x.id][1])
             else:
                 raise AnalysisError(f'raw_query action: unmodelled list element `{norm(x)}`')
         return out
@@ -119,7 +150,7 @@ def run(ctx):
                        f'the single-token raw_query action returns `{norm(rets[0].value)}` instead of the token itself',
                        file=g.file, line=fn.lineno)
             continue
-        pos = positions(rets[0].value, p, pvar)
+        pos = positions(rets[0].value, p, pvar, local_bindings(fn, p, pvar))
         ctx.ob('C16.order-preserving', f'{p}', pos == list(range(len(p.rhs))),
                f'raw_query action for `{p}` returns RHS positions {pos} - every token must be kept exactly once, in order '
                f'(expected {list(range(len(p.rhs)))})', file=g.file, line=fn.lineno, witness='CREATE VIEW v AS (select f(a) from t)')
@@ -135,15 +166,44 @@ def run(ctx):
         pvar = fn.args.args[1].arg
         prods = g.prods_of_func(fn)
         # every raw token list reaches tokens_to_string unmodified and lands in a query field
-        calls = [n for n in ast.walk(fn) if isinstance(n, ast.Call) and (dotted(n.func) or '').split('.')[-1] == 'tokens_to_string']
+        # the action itself and module-level helpers it hands the production slice to
+        mod_funcs = {n.name: n for n in ctx.src.tree(g.file).body if isinstance(n, ast.FunctionDef)}
+        scopes = [(fn, pvar, None)]
+        for n in ast.walk(fn):
+            if isinstance(n, ast.Call) and isinstance(n.func, ast.Name) and n.func.id in mod_funcs:
+                for i, a_ in enumerate(n.args):
+                    if isinstance(a_, ast.Name) and a_.id == pvar and i < len(mod_funcs[n.func.id].args.args):
+                        scopes.append((mod_funcs[n.func.id], mod_funcs[n.func.id].args.args[i].arg, n))
+        calls3 = [(n, pv, site) for f_, pv, site in scopes for n in ast.walk(f_) if isinstance(n, ast.Call) and (dotted(n.func) or '').split('.')[-1] == 'tokens_to_string']
         names_used = set()
-        for c in calls:
+        dest_sites = []      # (node in the action whose value is the text, key)
+        for c, pv, site in calls3:
+            if c.args and isinstance(c.args[0], ast.Attribute):
+                dest_sites.append((site if site is not None else c, f'{pvar}.{c.args[0].attr}'))
+        calls = [(c, pv) for c, pv, _ in calls3]
+        for c, pv in calls:
             a = c.args[0] if c.args else None
-            ok = isinstance(a, ast.Attribute) and isinstance(a.value, ast.Name) and a.value.id == pvar and a.attr.startswith(RAW)
+            alts = [a]
+            if isinstance(a, ast.Name):
+                # a local holding the token list: every assignment of it is a (conditional) choice between raw queries of the production
+                alts = []
+                scope_fn = next((f_ for f_, pv_, _ in scopes if pv_ == pv and any(x is c for x in ast.walk(f_))), fn)
+                for n_ in ast.walk(scope_fn):
+                    if isinstance(n_, ast.Assign) and any(isinstance(t_, ast.Name) and t_.id == a.id for t_ in n_.targets):
+                        stack_ = [n_.value]
+                        while stack_:
+                            v_ = stack_.pop()
+                            if isinstance(v_, ast.IfExp):
+                                stack_ += [v_.body, v_.orelse]
+                            else:
+                                alts.append(v_)
+            ok = bool(alts) and all(isinstance(x, ast.Attribute) and isinstance(x.value, ast.Name) and x.value.id == pv and x.attr.startswith(RAW) for x in alts)
+            if ok and len(alts) > 1 or (ok and alts[0] is not a):
+                names_used |= {x.attr for x in alts}
             ctx.ob('C16.order-preserving', f'{fn.name}@{fn.lineno}:tokens_to_string({norm(a) if a is not None else ""})', ok,
                    f'action {fn.name} passes `{norm(a) if a is not None else None}` to tokens_to_string instead of the unmodified token '
                    f'list p.raw_query', file=g.file, line=c.lineno)
-            if ok:
+            if ok and isinstance(a, ast.Attribute):
                 names_used.add(a.attr)
         need = set()
         for q in prods:
@@ -154,9 +214,8 @@ def run(ctx):
         ctx.count('embedding_actions')
         # where does each result go?  follow local names to constructor keywords
         dest = {}
-        for c in calls:
+        for c, key in dest_sites:
             par = getattr(c, '_parent', None)
-            key = norm(c.args[0]) if c.args else ''
             if isinstance(par, ast.Assign) and isinstance(par.targets[0], ast.Name):
                 var = par.targets[0].id
                 for n in ast.walk(fn):
